@@ -155,4 +155,39 @@ func init() {
 		Covers: map[string][]string{"VH_C01_reads": {"end"}, "VH_C01_step": {"end"}},
 		Bounds: map[string]string{"quick": "TBD", "thorough": "TBD"},
 	}
+	props["C09"] = &Property{
+		Title: "range reads sorted, bounded, truthful 'more', lossless paging",
+		Instances: func(tier string) []*Instance {
+			fsm := "storage/table/fsm"
+			n, v := int64(2), int64(-1)
+			if tier == "thorough" {
+				n, v = 3, 1
+			}
+			return []*Instance{
+				{Pkg: fsm, Func: "VH_C09_unary", Args: []int64{n, 2, v}, Unwind: 32},
+				{Pkg: fsm, Func: "VH_C09_stream", Args: []int64{n, 2, v}, Unwind: 32},
+				{Pkg: fsm, Func: "VH_C09_vacuity", Args: []int64{2, 2}, Expect: "violated"},
+			}
+		},
+		Covers: map[string][]string{"VH_C09_unary": {"end", "exactly-one-beyond-limit", "limit-equals-matches"}, "VH_C09_stream": {"end"}},
+		Bounds: map[string]string{"quick": "TBD", "thorough": "TBD"},
+	}
+	props["C03"] = &Property{
+		Title: "replicas converge: state independent of batching",
+		Instances: func(tier string) []*Instance {
+			fsm := "storage/table/fsm"
+			r := []*Instance{
+				{Pkg: fsm, Func: "VH_C03_batching", Args: []int64{2, 2, 0, 1}, Unwind: 32},
+				{Pkg: fsm, Func: "VH_C03_batching", Args: []int64{3, 1, 0, 1}, Unwind: 32},
+				{Pkg: fsm, Func: "VH_C03_vacuity", Expect: "violated"},
+			}
+			if tier == "thorough" {
+				r = append(r, &Instance{Pkg: fsm, Func: "VH_C03_batching", Args: []int64{2, 4, 1, 1}, Unwind: 32},
+					&Instance{Pkg: fsm, Func: "VH_C03_batching", Args: []int64{3, 2, 0, 1}, Unwind: 32})
+			}
+			return r
+		},
+		Covers: map[string][]string{"VH_C03_batching": {"end", "split"}},
+		Bounds: map[string]string{"quick": "TBD", "thorough": "TBD"},
+	}
 }
